@@ -47,6 +47,9 @@ rate = mile / sec
     [A] -> [B]: value * 11 * ub / ua
     inch = 3 * ua
 @end
+@context(n=2) P
+    [A] -> [T]: value * 13 * n * sec / ua
+@end
 @group G1
     yard = 3 * foot
 @end
@@ -73,6 +76,8 @@ EVENTS = [
     ("other",), ("deepcopy",),
     # a query made inside a with-block: declaratively neutral, but the cache / unit-table layers are switched twice
     ("within", "R", "conv"), ("within", "RB", "base"),
+    # a parameterised context entered without and with its keyword (the second one possibly nested in the first)
+    ("enable", "P"), ("within_kw", "P", 7),
 ]
 
 
@@ -109,8 +114,10 @@ QUERIES = {
     "foo": lambda r: fr(r.convert(1, "foo", "ua")),
     "ms": lambda r: sorted(dict(r.parse_units("ms")._units)),
     "league": lambda r: [fr(r.convert(1, "lg", "ua")), "league" in [next(iter(u._units)) for u in r.get_compatible_units("ua", "root")]],
+    # a parameterised context used per call WITHOUT a keyword: its declared default applies, whatever was passed earlier
+    "pconv": lambda r: fr(r.Quantity(1, "ua").to("sec", "P").magnitude),
 }
-PROBES = ["conv", "parse", "root", "base", "base_fsys", "compat", "compat_root", "dim", "fmt", "compact", "expr", "tobase", "foo", "ms", "league"]
+PROBES = ["conv", "parse", "root", "base", "base_fsys", "compat", "compat_root", "dim", "fmt", "compact", "expr", "tobase", "foo", "ms", "league", "pconv"]
 
 
 class Sys:
@@ -197,6 +204,11 @@ class CacheDriver(explore.Driver):
                 with r.context(ev[1]):
                     return QUERIES[ev[2]](r)
             return call(blk)
+        if k == "within_kw":
+            def blk2():
+                with r.context(ev[1], n=ev[2]):
+                    return fr(r.Quantity(1, "ua").to("sec").magnitude)
+            return call(blk2)
         raise core.HarnessError(ev)
 
     def fp(self, s, hist):
@@ -454,8 +466,8 @@ def replay(rec):
 MANIFEST = {
     "category": "model_checking",
     "technique": "explicit-state BFS over query/state-change histories on the real registry with fingerprint dedup; differential oracle against a fresh registry brought to the same declarative state; per-probe replays",
-    "text": "All histories up to depth 3 (4 thorough) over 24 events (11 query kinds that fill RegistryCache, the per-context overlays, the base-unit cache, the parse cache and the process-wide lru_caches; 3 "
-    "defines including one that collides with a prefixed reading; enabling/disabling two unit-redefining contexts; default_system = fsys / isys / None; touching a second registry that defines the same names "
+    "text": "All histories up to depth 3 (4 thorough) over 27 events (11 query kinds that fill RegistryCache, the per-context overlays, the base-unit cache, the parse cache and the process-wide lru_caches; 4 "
+    "defines including one that collides with a prefixed reading and one that defines an EXISTING unit again (on an empty context stack); a parameterised context entered without and with its keyword; enabling/disabling two unit-redefining contexts; default_system = fsys / isys / None; touching a second registry that defines the same names "
     "differently with another numeric type; deepcopy) are replayed on a generated registry. In every distinct state each of 15 probes is answered on its own replayed copy and must equal the answer of a "
     "fresh registry given the same definitions, default system and context stack; the second registry must keep its own fresh answers. The bundled registry is explored at depth 2 (3) over 14 events with 8 probes. Per-object memo: 7 units x scalar/ndarray x every ordered pair of 11 in-place operations, with and without reading the attributes between the two, (*=, /=, //=, **=, ito to "
     "another unit, ito across dimensions through a context, ito_root/base/reduced_units) with the memo warmed before each: dimensionality, dimensionless, unitless, check and is_compatible_with must describe the new units.",
